@@ -669,30 +669,33 @@ def check_failure_paths(ctx, rep):
                 rep.ok("R-ERR", key, body.where(bi), "the failure edge of %s reaches new_error / update_last_error on every path" % nm.split("::")[-1])
             else:
                 rep.bad("R-ERR", "R-ERR:%s:failure-of:%s" % (name, nm.split("::")[-1]), body.where(bi), "%s can fail in %s without an error being recorded (path %s)" % (nm.split("::")[-1], name, path))
-        # (c) strict index guards
-        idx_params = [i + 1 for i, ty in enumerate(body.rec.get("sig_inputs", [])) if ty == "usize"]
-        pnames = {l: nmn for l, nmn in body.names.items()}
-        for bi2 in range(body.n):
-            st = body.term(bi2)
-            if st["k"] != "switch":
-                continue
-            v = G.describe(body, st["op"])
-            if v.kind == "binop" and v.v in ("Lt", "Le", "Gt", "Ge") and len(v.args) == 2:
-                a, c2 = v.args
-                ra, rc = repr(a), repr(c2)
-                for p in idx_params:
-                    if pnames.get(p) != "index":
-                        continue
-                    lenside = c2 if ra == "_%d" % p else (a if rc == "_%d" % p else None)
-                    if lenside is None or not (lenside.kind == "call" and lenside.v.endswith("::len")):
-                        continue
-                    n += 1
-                    strict = (v.v == "Lt" and ra == "_%d" % p) or (v.v == "Gt" and rc == "_%d" % p)
-                    key = "%s:index-guard-strict" % name
-                    if strict:
-                        rep.ok("R-ERR", key, body.where(bi2), "index < len(): an index equal to the length is rejected like any other bad index")
-                    else:
-                        rep.bad("R-ERR", "R-ERR:" + key, body.where(bi2), "%s accepts index == len() (%s): a bad index is not reported and the container changes" % (name, v.v))
+        # (c) an `index` argument reaches a positional operation of the wrapped collection (Vec::insert / remove / swap_remove,
+        # slice indexing) only on paths that carry `index < len()` of that collection - whatever the spelling of the test
+        idx_params = [i + 1 for i, ty in enumerate(body.rec.get("sig_inputs", [])) if ty == "usize" and body.names.get(i + 1) == "index"]
+        if idx_params:
+            from rules import pathcond as PC
+
+            p = idx_params[0]
+            ops_b = []
+            for bi2, t2 in body.calls():
+                nm2 = strip_generics(mir.callee_name(t2) or "")
+                if re.search(r"(Vec::(insert|remove|swap_remove)|ops::Index(Mut)?(<[^>]*>)?>::index(_mut)?)$", nm2) and len(t2["args"]) > 1 and repr(G.describe(body, t2["args"][1])) == "_%d" % p:
+                    ops_b.append((bi2, nm2.split("::")[-1], repr(G.describe(body, t2["args"][0]))))
+            for bi2, opn, recv in ops_b:
+                n += 1
+                paths = PC.enumerate_paths(body, lambda x, bb=bi2: x == bb)
+                key = "%s:index-guard-strict" % name
+                want = None
+                for a in PC.atoms_of(paths):
+                    m = re.match(r"^less\(_%d, (.*)\)$" % p, a)
+                    if m and "::len(" in m.group(1):
+                        want = a
+                good = want is not None and bool(paths) and all((want, True) in lits for _b, lits, _e in paths)
+                if good:
+                    rep.ok("R-ERR", key, body.where(bi2), "%s(index) is reached only with index < len(): an index equal to the length is rejected like any other bad index" % opn)
+                else:
+                    weak = [a for a in PC.atoms_of(paths) if a.startswith("less(") and "_%d" % p in a]
+                    rep.bad("R-ERR", "R-ERR:" + key, body.where(bi2), "%s reaches %s(index) without `index < len()` on every path (conditions on the index: %s): a bad index is not reported and the container changes / the call panics" % (name, opn, weak or "none"))
     return n
 
 
@@ -857,6 +860,40 @@ def check_verb_delegation(ctx, rep):
     return n
 
 
+
+def _foreign_char_returns(prog, b, seen):
+    """[(block, what)] for every value `b` can return that is neither null nor CString::into_raw; a private helper of the C API
+    that itself only returns such values is looked through"""
+    bad = []
+    seen = seen | {b.id}
+    for bi2, si, rv in b.defs().get(0, []):
+        if si == "term":
+            t = b.term(bi2)
+            nm = strip_generics(mir.callee_name(t) or "")
+            if nm in ("std::ffi::CString::into_raw", "std::ptr::null", "std::ptr::null_mut"):
+                continue
+            hb = prog.get(nm) or next((x for x in prog.bodies.values() if strip_generics(x.id) == nm and x.rec["kind"] != "Closure"), None)
+            if hb is not None and hb.file.startswith("src/c_api/") and hb.id not in seen and re.match(r"^\*(const|mut) (i8|u8|std::ffi::c_char|core::ffi::c_char|std::os::raw::c_char)$", hb.rec.get("sig_output", "")):
+                inner = _foreign_char_returns(prog, hb, seen)
+                if inner:
+                    bad.append((bi2, "%s -> %s" % (nm.split("::")[-1], inner[0][1])))
+                continue
+            bad.append((bi2, nm))
+            continue
+        v = G.describe(b, rv["op"]) if rv["k"] in ("use", "cast") else G.describe_place(b, rv.get("place")) if rv["k"] in ("ref", "rawptr") else None
+        r = repr(v) if v is not None else "?"
+        if v is not None and ((v.kind == "call" and v.v in ("std::ffi::CString::into_raw", "std::ptr::null", "std::ptr::null_mut")) or (v.kind == "const" and v.v == 0)):
+            continue
+        if v is not None and v.kind == "call":
+            hb = prog.get(v.v) or next((x for x in prog.bodies.values() if strip_generics(x.id) == v.v and x.rec["kind"] != "Closure"), None)
+            if hb is not None and hb.file.startswith("src/c_api/") and hb.id not in seen:
+                inner = _foreign_char_returns(prog, hb, seen)
+                if not inner:
+                    continue
+        bad.append((bi2, r[:80]))
+    return bad
+
+
 def check_returned_strings(ctx, rep):
     """every `*const c_char` / `*mut c_char` an exported function returns is either null or the result of CString::into_raw:
     the documented protocol frees every returned string with haystack_string_destroy (CString::from_raw), which is undefined
@@ -871,19 +908,7 @@ def check_returned_strings(ctx, rep):
         if not re.match(r"^\*(const|mut) (i8|u8|std::ffi::c_char|core::ffi::c_char|std::os::raw::c_char)$", out):
             continue
         n += 1
-        bad = []
-        for bi2, si, rv in b.defs().get(0, []):
-            if si == "term":
-                t = b.term(bi2)
-                nm = strip_generics(mir.callee_name(t) or "")
-                if nm not in ("std::ffi::CString::into_raw", "std::ptr::null", "std::ptr::null_mut"):
-                    bad.append((bi2, nm))
-                continue
-            v = G.describe(b, rv["op"]) if rv["k"] in ("use", "cast") else G.describe_place(b, rv.get("place")) if rv["k"] in ("ref", "rawptr") else None
-            r = repr(v) if v is not None else "?"
-            if v is not None and ((v.kind == "call" and v.v in ("std::ffi::CString::into_raw", "std::ptr::null", "std::ptr::null_mut")) or (v.kind == "const" and v.v == 0)):
-                continue
-            bad.append((bi2, r[:80]))
+        bad = _foreign_char_returns(prog, b, set())
         key = "returned-string:%s" % b.rec["name"]
         if bad:
             rep.bad("R-FFI-N3", "R-FFI-N3:" + key, b.where(bad[0][0]), "%s returns a char pointer that is neither null nor CString::into_raw (%s): haystack_string_destroy on it frees memory the allocator never handed out" % (b.rec["name"], bad[0][1]))
